@@ -349,7 +349,7 @@ static void one(uint8_t *buf, size_t n)
 }
 int main(int argc, char **argv)
 {
-    static const char *TOKENS[] = { "{", "}", "(", ")", "\"", ",", ";", "\\", "/*", "*/", "//", "\n", " ", "\"\\", "a b c", "((" };
+    static const char *TOKENS[] = { "{", "}", "(", ")", "\"", ",", ";", "\\", "/*", "*/", "//", "\n", " ", "\"\\", "a b c", "((", "\xef\xbb\xbf" /* UTF-8 byte order mark */ };
     unsigned shard, nshards, np = sizeof(PRIORS) / sizeof(PRIORS[0]), nt = sizeof(TOKENS) / sizeof(TOKENS[0]);
     unsigned long idx = 0;
     int fi;
